@@ -384,9 +384,12 @@ func isAlphaNumeric(r rune) bool {
 	return r == '_' || r == '-' || unicode.IsLetter(r) || unicode.IsDigit(r) || r == '%'
 }
 
-// is Numeric reports whether r is a digit
+// isNumeric reports whether r is a digit that lexNumber accepts (ASCII only).
+// It must agree with the digit set of lexNumber: a wider set (unicode.IsDigit) sends
+// lexText into lexNumber after backing up by the wrong width, which slices the input
+// out of range.
 func isNumeric(r rune) bool {
-	return unicode.IsDigit(r)
+	return '0' <= r && r <= '9'
 }
 
 // atTerminator reports whether the input is at valid termination character to
